@@ -1,6 +1,7 @@
 package nc
 
 import (
+	"encoding/json"
 	"fmt"
 	"os"
 	"path/filepath"
@@ -37,6 +38,9 @@ func PropertyIDs() []string {
 
 // RunChecks runs the rules of one property (or all) and writes evidence.
 func RunChecks(opt Options) int {
+	if opt.Replay != "" {
+		return runReplay(opt)
+	}
 	if opt.Property == "" {
 		fmt.Fprintln(os.Stderr, "usage: nutcheck -property Cxx|all [-tier quick|thorough] [-repo dir]")
 		return 2
@@ -107,4 +111,56 @@ func (c *Ctx) vocabProblems(rule string) {
 	for _, pr := range c.V.Problems {
 		c.R.Unresolved(rule, "vocabulary", pr)
 	}
+}
+
+// runReplay re-decides the obligation recorded in a replay file on the current tree: it re-runs the
+// rules of the record's property and prints that obligation's current verdict with its reason.
+// Exit 1 if the obligation is still violated, 0 if it is discharged or no longer exists.
+func runReplay(opt Options) int {
+	b, err := os.ReadFile(opt.Replay)
+	if err != nil {
+		fmt.Fprintln(os.Stderr, "replay:", err)
+		return 2
+	}
+	var rec struct {
+		Property   string     `json:"property"`
+		Obligation Obligation `json:"obligation"`
+	}
+	if err := json.Unmarshal(b, &rec); err != nil || rec.Property == "" {
+		fmt.Fprintln(os.Stderr, "replay: not a replay record:", opt.Replay)
+		return 2
+	}
+	if _, ok := properties[rec.Property]; !ok {
+		fmt.Fprintf(os.Stderr, "replay: unknown property %q\n", rec.Property)
+		return 2
+	}
+	p, err := Load(LoadOptions{Repo: opt.Repo})
+	if err != nil {
+		fmt.Println("replay: the repository does not load:", err)
+		return 1
+	}
+	r := NewReport(rec.Property, "quick")
+	c := &Ctx{P: p, V: BuildVocab(p), R: r, Opt: opt}
+	func() {
+		defer func() {
+			if x := recover(); x != nil {
+				r.Unresolved("checker", "panic", fmt.Sprintf("%v", x))
+			}
+		}()
+		properties[rec.Property].run(c)
+	}()
+	fmt.Printf("replay of %s\n  recorded: [%s] at %s\n    %s\n", rec.Obligation.Key, rec.Obligation.Status, rec.Obligation.Site, rec.Obligation.Detail)
+	for _, o := range r.Obls {
+		if o.Key != rec.Obligation.Key {
+			continue
+		}
+		fmt.Printf("  now:      [%s] at %s\n    what: %s\n    why:  %s\n", o.Status, o.Site, o.Desc, o.Detail)
+		if o.Status != "discharged" {
+			fmt.Printf("VIOLATION property=%s replay=%s\n", rec.Property, opt.Replay)
+			return 1
+		}
+		return 0
+	}
+	fmt.Println("  now:      no obligation with this key exists on the current tree (the construct is gone or the violation no longer occurs)")
+	return 0
 }
